@@ -46,6 +46,7 @@ structure Node where
   mult : Nat := 1       -- flatten: spatial multiplier
   dup : Bool := false   -- a further invocation (fx call site) of a layer module invoked earlier
   ta : Nat := 0         -- dup: the tensor node fed to the FIRST call site of that module
+  tf : Nat := 0         -- dup: the node of the FIRST call site of that module
 deriving Repr, Inhabited
 
 abbrev Prog := List Node
@@ -76,7 +77,7 @@ def wfB (p : Prog) : Bool :=
 
 /-- the tie argument of a further call site refers to an earlier node -/
 def tieOK (p : Prog) : Bool :=
-  (List.range p.length).all fun i => !(p.nd i).dup || decide ((p.nd i).ta < i)
+  (List.range p.length).all fun i => !(p.nd i).dup || (decide ((p.nd i).ta < i) && decide ((p.nd i).tf < i))
 
 /-! ## sharing of quantizers (`build_shared_mps_qtz_map`) -/
 
@@ -89,14 +90,32 @@ features calculator) -/
 def tieLabels (ls : List Nat) (nd : Node) : List Nat :=
   if nd.dup then relabel (ls.getD nd.a 0) (ls.getD nd.ta 0) ls else ls
 
+/-- label of a features-defining layer node: its own component, or — for a further call site of a
+module invoked earlier — the component of the first call site (the module owns one output and one
+weight quantizer; call sites are merged like in PIT's sharing graph) -/
+def siteLabel (ls : List Nat) (nd : Node) : Nat :=
+  if nd.dup then (tieLabels ls nd).getD nd.tf 0 else ls.length
+
 /-- component label of the next node; an add merges the components of its two operands -/
 def stepLabel (ls : List Nat) (nd : Node) : List Nat :=
+  match nd.kind with
+  | .input => ls ++ [ls.length]
+  | .conv | .linear => tieLabels ls nd ++ [siteLabel ls nd]
+  | .add => relabel (ls.getD nd.b 0) (ls.getD nd.a 0) ls ++ [ls.getD nd.a 0]
+  | .dw => tieLabels ls nd ++ [(tieLabels ls nd).getD nd.a 0]
+  | _ => ls ++ [ls.getD nd.a 0]
+
+/-- `stepLabel` with the tie between the tensors fed to the call sites (3725f20) but without the
+merge of the call sites themselves, for the regression witness -/
+def stepLabelUnmerged (ls : List Nat) (nd : Node) : List Nat :=
   match nd.kind with
   | .input => ls ++ [ls.length]
   | .conv | .linear => tieLabels ls nd ++ [ls.length]
   | .add => relabel (ls.getD nd.b 0) (ls.getD nd.a 0) ls ++ [ls.getD nd.a 0]
   | .dw => tieLabels ls nd ++ [(tieLabels ls nd).getD nd.a 0]
   | _ => ls ++ [ls.getD nd.a 0]
+
+def labelsUnmerged (p : Prog) : List Nat := p.foldl stepLabelUnmerged []
 
 /-- `stepLabel` without the tie edge (the tree before 3725f20), for the regression witness -/
 def stepLabelPinned (ls : List Nat) (nd : Node) : List Nat :=
